@@ -283,6 +283,15 @@ func (p *Policy) AddToSuspiciousPeerList(pubkey string) error {
 }
 
 func addLineToFile(filePath, line string) error {
+	// A hand-edited policy file may lack the final newline; the new entry must
+	// not be glued to the last line.
+	content, err := os.ReadFile(filePath)
+	if err != nil {
+		return err
+	}
+	if len(content) > 0 && content[len(content)-1] != '\n' {
+		line = "\n" + line
+	}
 	file, err := os.OpenFile(filePath, os.O_APPEND|os.O_WRONLY, 0660)
 	if err != nil {
 		return err
